@@ -1336,6 +1336,12 @@ def get_attr(ip, obj, attr, node, fr):
                     return VFunc('contractref', v.name, target=v.target, self_val=obj)
             return v
         relpath, cname = obj.cls.split(':')
+        if relpath != 'ext' and attr in EXC_PARENT:
+            # an exception class nested in the repository class (class DB: class DBError(Exception))
+            cnode = ip.repo.module(relpath).classes.get(cname)
+            for sub in (cnode.body if cnode is not None else []):
+                if isinstance(sub, ast.ClassDef) and sub.name == attr:
+                    return VClass(attr, 'exc')
         m = find_method(ip, relpath, cname, attr) if relpath != 'ext' else None
         if m is not None:
             mod, key, fnode, clsname = m
